@@ -36,6 +36,12 @@ def strategy(tier):
 
 def prepare_tree(case):
     tree = case["tree"]
+    if case.get("outloc") == "nested":
+        # directories whose names merely extend the name of the nested output directory
+        dirs = dict(tree["dirs"])
+        dirs["_out-examples"] = {"files": {"ex.cmake": 0}, "dirs": {"more": {"files": {"deep.cmake": 1}, "dirs": {}}}}
+        dirs["_out2"] = {"files": {"two.cmake": 2}, "dirs": {}}
+        tree = {"files": tree["files"], "dirs": dirs}
     if case["auto"]:
         tree = T.ensure_lowercase_cmake(tree)
         if not T.has_lower_cmake(tree):
